@@ -692,9 +692,7 @@ func (f Function) lambdaPrint(ps *ast.PrintState, out *strings.Builder) string {
 	} else {
 		out.WriteString("=>")
 	}
-	needBraces := len(f.Body.Statements) != 1 ||
-		f.Body.Statements[0].Value().Type() == token.LBRACE ||
-		f.Body.Statements[0].Value().Type() == token.LAMBDA
+	needBraces := len(f.Body.Statements) != 1 || lambdaBodyNeedsBraces(f.Body.Statements[0])
 	if needBraces {
 		out.WriteString("{")
 	}
@@ -703,6 +701,20 @@ func (f Function) lambdaPrint(ps *ast.PrintState, out *strings.Builder) string {
 		out.WriteString("}")
 	}
 	return out.String()
+}
+
+// A single statement lambda body is printed without braces only if it reads back as the whole body:
+// not a map literal or a lambda, nor anything that `=>` binds tighter than (assignment, ||, &&, :),
+// a return (not an expression) or a comment (omitted in compact form).
+func lambdaBodyNeedsBraces(stmt ast.Node) bool {
+	switch stmt.(type) {
+	case *ast.ReturnStatement, *ast.Comment:
+		return true
+	case *ast.InfixExpression:
+		return ast.Precedences[stmt.Value().Type()] < ast.LAMBDA
+	}
+	t := stmt.Value().Type()
+	return t == token.LBRACE || t == token.LAMBDA
 }
 
 // Common part of Inspect and SetCacheKey. Outputs the rest of the function.
